@@ -3,7 +3,6 @@ package main
 import (
 	"fmt"
 	"io"
-	"sort"
 	"strings"
 	"sync"
 	"sync/atomic"
@@ -182,38 +181,38 @@ func (f c33Frame) flow() int64 {
 }
 
 type c33Stream struct {
-	Kind    string     `json:"kind"` // readall | readn | closebody
-	Chunk   int        `json:"chunk"`
-	ReadN   int64      `json:"read_n"`
-	Hold    bool       `json:"hold"`              // handler starts only after all of Frames were sent
-	Frames  []c33Frame `json:"frames"`            // sent while respecting the windows
-	After   []c33Frame `json:"after,omitempty"`   // closebody: sent after the handler closed the body
-	DeclLen int64      `json:"decl_len"`          // -1: no content-length
-	ClientR bool       `json:"client_rst"`        // client resets the stream after Frames
-	MidSync bool       `json:"mid_sync"`          // readall: check per-stream conservation before END_STREAM
-	Excess  string     `json:"excess,omitempty"`  // "stream" | "conn": final frame exceeds that window by 1..k
-	ExcessBy int       `json:"excess_by,omitempty"`
+	Kind     string     `json:"kind"` // readall | readn | closebody
+	Chunk    int        `json:"chunk"`
+	ReadN    int64      `json:"read_n"`
+	Hold     bool       `json:"hold"`             // handler starts only after all of Frames were sent
+	Frames   []c33Frame `json:"frames"`           // sent while respecting the windows
+	After    []c33Frame `json:"after,omitempty"`  // closebody: sent after the handler closed the body
+	DeclLen  int64      `json:"decl_len"`         // -1: no content-length
+	ClientR  bool       `json:"client_rst"`       // client resets the stream after Frames
+	MidSync  bool       `json:"mid_sync"`         // readall: check per-stream conservation before END_STREAM
+	Excess   string     `json:"excess,omitempty"` // "stream" | "conn": final frame exceeds that window by 1..k
+	ExcessBy int        `json:"excess_by,omitempty"`
 }
 
 type c33Case struct {
-	Class      string        `json:"class"`
-	LargeConn  bool          `json:"large_conn_window"`
-	StreamWin  uint32        `json:"max_upload_buffer_per_stream"`
-	Streams    []c33Stream   `json:"streams"`
-	Concurrent bool          `json:"concurrent"`
-	ClientSet  bool          `json:"client_settings_midway"`
-	Note       string        `json:"note,omitempty"`
-	Extra      interface{}   `json:"extra,omitempty"`
+	Class      string      `json:"class"`
+	LargeConn  bool        `json:"large_conn_window"`
+	StreamWin  uint32      `json:"max_upload_buffer_per_stream"`
+	Streams    []c33Stream `json:"streams"`
+	Concurrent bool        `json:"concurrent"`
+	ClientSet  bool        `json:"client_settings_midway"`
+	Note       string      `json:"note,omitempty"`
+	Extra      interface{} `json:"extra,omitempty"`
 }
 
 type c33Result struct {
-	ok           bool // ran to the end
-	inconclusive string
-	connDeficit  int64 // sent - refunded at final quiescence
-	sent         int64
-	stallAt      int // stream index at which a definite stall was seen, -1 none
+	ok            bool // ran to the end
+	inconclusive  string
+	connDeficit   int64 // sent - refunded at final quiescence
+	sent          int64
+	stallAt       int // stream index at which a definite stall was seen, -1 none
 	srvConnInflow int32
-	cliConn      int64
+	cliConn       int64
 }
 
 var c33Reported sync.Map // signature -> true (witness built only once)
@@ -227,6 +226,8 @@ func c33RunCase(r *vkit.Run, cs *c33Case, report bool) (res c33Result) {
 	win := newC33Win()
 	tc.cli.OnEvent = win.onEvent
 	ctls := make([]*c33Ctl, len(cs.Streams))
+	sentData := make([]int64, len(cs.Streams)) // DATA payload octets (without padding) written so far, per stream
+	st8 := &c33State{cs: cs, ctls: ctls, win: win, sentData: sentData}
 	defer func() {
 		for _, c := range ctls {
 			if c != nil {
@@ -334,7 +335,7 @@ func c33RunCase(r *vkit.Run, cs *c33Case, report bool) (res c33Result) {
 			}
 			// Decide at quiescence whether an update can still come: every reading handler
 			// must have consumed all octets buffered for it.
-			c33WaitConsumed(cs, ctls, win)
+			settled := st8.waitConsumed()
 			if !tc.quiesce() {
 				return "end"
 			}
@@ -346,10 +347,10 @@ func c33RunCase(r *vkit.Run, cs *c33Case, report bool) (res c33Result) {
 			if enough || rst {
 				continue
 			}
-			if c33AllConsumed(cs, ctls, win) {
+			if settled && st8.allConsumed() {
 				return "stall"
 			}
-			if attempt > 200 {
+			if attempt > 3 {
 				return "end"
 			}
 		}
@@ -357,6 +358,7 @@ func c33RunCase(r *vkit.Run, cs *c33Case, report bool) (res c33Result) {
 
 	sendFrame := func(i int, f c33Frame) error {
 		id := streamID(i)
+		defer atomic.AddInt64(&sentData[i], int64(f.Data))
 		if f.Pad < 0 {
 			return tc.cli.WriteData(id, f.End, make([]byte, f.Data))
 		}
@@ -404,9 +406,7 @@ func c33RunCase(r *vkit.Run, cs *c33Case, report bool) (res c33Result) {
 		}
 		if st.Excess != "" {
 			// make the client's view exact, then exceed it
-			if st.Hold == false && st.Kind == "readall" {
-				c33WaitConsumed(cs, ctls, win)
-			}
+			st8.waitConsumed()
 			if !tc.quiesce() {
 				return false
 			}
@@ -465,7 +465,7 @@ func c33RunCase(r *vkit.Run, cs *c33Case, report bool) (res c33Result) {
 		}
 		if st.MidSync && st.Kind == "readall" {
 			closeOnce(ctls[i].hold)
-			c33WaitConsumed(cs, ctls, win)
+			st8.waitConsumed()
 			if !tc.quiesce() {
 				return false
 			}
@@ -551,7 +551,9 @@ func c33RunCase(r *vkit.Run, cs *c33Case, report bool) (res c33Result) {
 			aborted = true
 			break
 		}
-		if !cs.Concurrent {
+		if !cs.Concurrent && cs.Streams[i].ClientR {
+			tc.cli.Sync()
+		} else if !cs.Concurrent {
 			// sequential: wait until the stream is over at the server (response or reset)
 			id := streamID(i)
 			tc.cli.Wait(func(evs []h2cli.Event) bool {
@@ -643,55 +645,66 @@ func c33PanicClass(p string) string {
 	return "other"
 }
 
-// c33WaitConsumed waits (polling; not an oracle) until every handler that is
-// running and reading has drained what was sent to it, or stopped.
-func c33WaitConsumed(cs *c33Case, ctls []*c33Ctl, win *c33Win) {
-	dl := time.Now().Add(20 * time.Second)
-	for !c33AllConsumed(cs, ctls, win) && time.Now().Before(dl) {
-		time.Sleep(200 * time.Microsecond)
-	}
+type c33State struct {
+	cs       *c33Case
+	ctls     []*c33Ctl
+	win      *c33Win
+	sentData []int64
 }
 
-// c33AllConsumed: no handler can produce a further body read.
-func c33AllConsumed(cs *c33Case, ctls []*c33Ctl, win *c33Win) bool {
-	for i, c := range ctls {
+// waitConsumed waits (polling; not an oracle) until allConsumed holds; false
+// if it did not settle within the safety bound.
+func (s *c33State) waitConsumed() bool {
+	dl := time.Now().Add(20 * time.Second)
+	for !s.allConsumed() {
+		if time.Now().After(dl) {
+			return false
+		}
+		time.Sleep(200 * time.Microsecond)
+	}
+	return true
+}
+
+// allConsumed: no handler can cause a further WINDOW_UPDATE unless the script
+// itself moves on. readall: it has read every payload octet written so far;
+// a handler that returned: the client has seen the end of its stream (the
+// server has then closed the stream); closebody: it has closed the body.
+func (s *c33State) allConsumed() bool {
+	for i, c := range s.ctls {
 		if c == nil {
 			continue
 		}
+		id := uint32(2*i + 1)
 		select {
 		case <-c.done:
+			s.win.mu.Lock()
+			_, rst := s.win.gotRST[id]
+			over := rst || s.win.gotEnd[id] || s.win.goAway != nil
+			s.win.mu.Unlock()
+			if !over && !s.cs.Streams[i].ClientR {
+				return false
+			}
 			continue
 		default:
 		}
 		select {
 		case <-c.hold:
 		default:
-			continue // not started: it is not going to read until released
+			continue // not started: it is not going to read until the script releases it
 		}
-		st := &cs.Streams[i]
-		var dataSent int64
-		for _, f := range st.Frames {
-			dataSent += int64(f.Data)
-		}
-		read := atomic.LoadInt64(&c.read)
-		switch st.Kind {
+		switch c.Kind {
 		case "readall":
-			if read < dataSent && c.readErr.Load() == nil {
-				// it may not have been sent completely yet: compare with what was really sent
-				win.mu.Lock()
-				sent := win.streamSent[uint32(2*i+1)]
-				win.mu.Unlock()
-				_ = sent
+			if atomic.LoadInt64(&c.read) < atomic.LoadInt64(&s.sentData[i]) && c.readErr.Load() == nil {
 				return false
 			}
-		case "readn", "closebody":
-			lim := st.ReadN
-			if lim > dataSent {
-				lim = dataSent
-			}
-			if read < lim && c.readErr.Load() == nil {
+		case "closebody":
+			select {
+			case <-c.bodyClosed:
+			default:
 				return false
 			}
+		default: // readn: it is on its way to returning
+			return false
 		}
 	}
 	return true
@@ -922,6 +935,9 @@ func c33Judge(r *vkit.Run, cs *c33Case, res c33Result) {
 		return
 	}
 	sig := c33LeakSig[cs.Class]
+	if res.connDeficit == 0 {
+		sig = "stall:window-not-reopened:" + cs.Class
+	}
 	if res.connDeficit < 0 {
 		sig = strings.Replace(sig, "leak", "over-refund", 1)
 	}
@@ -952,7 +968,7 @@ func c33(r *vkit.Run) {
 		r.SetMinDistinct(0)
 		return
 	}
-	n := r.N(1400, 24000)
+	n := envN(r.N(1400, 24000))
 	for phase := 0; phase < 2; phase++ {
 		large := phase == 1
 		bfe_http2.VerifSetLargeConnRecvWindow(large)
@@ -985,9 +1001,4 @@ func c33(r *vkit.Run) {
 	if r.Counter("excess_answered_rst_flow_control")+r.Counter("excess_answered_goaway_flow_control") == 0 && r.Violations() == 0 {
 		r.Inconclusive("C33: no excess frame was answered with FLOW_CONTROL_ERROR")
 	}
-	var keys []string
-	for k := range c33LeakSig {
-		keys = append(keys, k)
-	}
-	sort.Strings(keys)
 }
